@@ -382,3 +382,22 @@ Definition rfc_bits (table : list (string * Z)) (names : list bytes) : Z :=
   fold_right (fun n acc => Z.lor (rfc_bit table n) acc) 0 names.
 Definition is_flag_name (table : list (string * Z)) (name : bytes) : bool :=
   match lookup_key name table with Some _ => true | None => false end.
+
+(* ---------------------------------------------------------------- what a line-oriented file denotes *)
+
+(* every line of the file, however long: the text between newlines without one trailing carriage return;
+   an empty piece after the last newline is not a line *)
+Fixpoint strip_last_empty (segs : list bytes) : list bytes :=
+  match segs with
+  | [] => []
+  | seg :: rest => match rest with
+                   | [] => if is_nil seg then [] else [seg]
+                   | _ => seg :: strip_last_empty rest
+                   end
+  end.
+Definition all_lines (data : bytes) : list bytes := map drop_cr (strip_last_empty (split_on 10 data)).
+(* the lines that carry content: comment removed, surrounding blanks removed, not empty *)
+Definition content_lines (comment trimc : Z) (data : bytes) : list bytes :=
+  filter (fun l => negb (is_nil l)) (map (clean_line comment trimc) (all_lines data)).
+
+Definition render_ports_file (l : list (Z * Z)) : bytes := flat_map (fun r => render_range r ++ [10]) l.
